@@ -209,7 +209,8 @@ def alias_chars(a):
     """code points that coincide with the attribute letter `a` after a truncation, a mask or a case fold:
     an unrecognised descriptor that a lossy comparison would take for a recognised one"""
     out = []
-    for v in (a + 0x100, a + 0x200, a + 0x4E00, a + 0xFF00, a + 0x10000, a + 0x10FF00, a | 0x80, a ^ 0x20, a + 0x80):
+    for v in [a + 0x200, a + 0x4E00, a + 0xFF00, a + 0x10FF00, a ^ 0x20, a + 0x80, a + 0xF0000, a + 0x1FF00] + \
+            [a | (1 << k) for k in range(7, 21)]:
         if 0 <= v < 0x110000 and not (0xD800 <= v <= 0xDFFF) and v != a:
             out.append(v)
     return sorted(set(out))
@@ -227,3 +228,48 @@ def mutate_frame(r, fr):
         out.append(bytes(p[:-1]))
         out.append(bytes(p) + rand_bytes(r, r.choice([1, 2, 9])))
     return [mk_frame(x[:1023]) for x in out]
+
+
+def frame_with_crc(r, L, target, number=None, resv=0):
+    """a valid frame with an L-byte payload (L >= 3) whose CRC-24Q equals `target`: the last three payload
+    bytes are solved for (the checksum is an affine bijection of them for a fixed prefix)"""
+    assert 3 <= L <= 1023
+    p = bytearray(payload_for(r, L, number))
+    hdr = bytes([0xD3, ((resv & 63) << 2) | (L >> 8), L & 0xFF])
+
+    def c(x):
+        p[L - 3:L] = bytes([(x >> 16) & 255, (x >> 8) & 255, x & 255])
+        return crc24q(hdr + bytes(p))
+
+    c0 = c(0)
+    cols = [c(1 << i) ^ c0 for i in range(24)]          # linear part, column i
+    # solve sum x_i cols[i] = target ^ c0 over GF(2)
+    rows = [(cols[i], 1 << i) for i in range(24)]
+    want, x = target ^ c0, 0
+    basis = []
+    for v, m in rows:
+        for bv, bm in basis:
+            if v ^ bv < v:
+                v ^= bv; m ^= bm
+        if v:
+            basis.append((v, m))
+            basis.sort(reverse=True)
+    for bv, bm in basis:
+        if want ^ bv < want:
+            want ^= bv; x ^= bm
+    assert want == 0
+    c(x)
+    f = mk_frame(bytes(p), resv)
+    assert (f[-3] << 16 | f[-2] << 8 | f[-1]) == target
+    return f
+
+
+def special_crcs(repo="/repo"):
+    """checksum values at which comparisons written with sentinels, narrowing casts, modulo or partial
+    (byte-wise, early) tests go wrong; literals of the sources that fit 24 bits are included"""
+    base = [0x000000, 0xFFFFFF, 0x000001, 0x800000, 0x7FFFFF, 0xFFFFFE, 0x0000FF, 0x00FFFF, 0xFFFF00, 0xFF0000,
+            0x00FF00, 0xFF00FF, 0x010000, 0x000100, 0x00FFFE, 0x00FFFD, 0xFEFFFF, 0x01FFFF, 0xD30000, 0x00D300, 0x0000D3, 0xD3D3D3,
+            0xD30000 | 0x0000, 0xD30001, 0x864CFB, 0x123456, 0xAB00CD, 0x00ABCD, 0xABCD00, 0xABFFFF, 0xFFABFF, 0xFFFFAB]
+    d = source_dictionary(repo)
+    new = [v for v in d.get("new_ints", []) if v < (1 << 24)]
+    return list(dict.fromkeys(new + base))
